@@ -3,12 +3,14 @@
 Model (JSON-serialisable; the top-level package name is NOT part of the model, the renderer receives it):
 
     case = {"kind": "pkg", "layout": "module" | "package", "mods": [mod, ...]}      # mods in import order
-    mod  = {"path": ["a"] | [] | ["sub"] | ["sub", "c"], "init": bool, "doc": str | None, "body": [item, ...]}
+    mod  = {"path": ["a"] | [] | ["sub"] | ["sub", "c"], "init": bool, "doc": str | None, "body": [item, ...],
+            "typing": bool}     # typing: the module starts with `from typing import Generic, Protocol, TypeVar; T = TypeVar("T")`
     item = {"t": "attr",  "name": str, "value": <literal source>}
          | {"t": "func",  "name": str, "params": [param, ...], "ret": <annotation source> | None, "doc": str | None,
             "async": bool, "deco": None | "staticmethod" | "classmethod" | "property" | "cached_property" | "fcached_property",
             "setter": bool, "init_attrs": [str, ...]}
          | {"t": "class", "name": str, "doc": str | None, "bases": [[part, ...], ...], "body": [item, ...]}
+           # a base is a dotted name; a last part starting with "[" is a subscript: ["Repo", "[int]"], ["Generic", "[T]"]
          | {"t": "from",    "mod": idx, "rel": bool, "names": [[name, asname | None], ...]}      from pkg.a import A as A2
          | {"t": "frommod", "mod": idx, "rel": bool, "as": asname | None}                        from pkg import a [as x]
          | {"t": "import",  "mod": idx, "as": asname | None}                                     import pkg.a [as x]
@@ -28,6 +30,9 @@ Soundness (every case is an importable package inside the property's domain) is 
 * sibling module names never differ only by leading underscores (the inspector documents treating those as one module);
 * base classes are classes of this package reached through names bound *earlier* in the same module; the C3 merge is
   computed at generation time so `class C(B1, B2)` always has a consistent MRO;
+* typing bases: `Generic[T]` (last base) and `Protocol` / `Protocol[T]` (sole base, protocols only inherit protocols); a base
+  is subscripted (`Repo[int]`, `Repo[T]`) only if that class still has a free type variable; the same class never appears
+  twice among the bases; `T` is the module's own `TypeVar("T")` from the typing header;
 * no conditional definitions, no annotation-only attributes, no callable instances / lambdas / class aliases as attribute
   values (values are literals), `self.x = ...` only inside `__init__` (reported to the oracle as init-only names);
 * `import pkg.sub` without `as` is not generated inside the top-level `__init__` (it binds the package to itself: a cyclic
@@ -54,7 +59,7 @@ CLS_ATTRS = ["v", "w", "_k", "LIMIT"]
 CLS_PROPS = ["p", "size", "_cp"]
 CLS_NESTED = ["Inner", "Meta", "_N"]
 INIT_ATTRS = ["inst", "data", "_priv", "v"]
-PARAM_NAMES = ["a", "b", "c", "d", "e", "x", "y", "z", "k"]
+PARAM_NAMES = ["a", "b", "c", "d", "e", "x", "y", "z", "k", "i", "j"]
 
 VALUES = ["1", "0", "-1", "'s'", "None", "True", "(1, 2)", "[1]", "{'k': 1}", "1.5", "b'x'", "...", "''", "()"]
 DEFAULTS = ["0", "1", "None", "'s'", "()", "True", "-1", "1.5"]
@@ -64,6 +69,9 @@ DOC_LINES = ["Summary.", "Details: more", "x", "Args:", "a: thing", "café ✓",
 DOC_INDENTS = ["", "", "  ", "    ", "        ", "\t"]
 
 STEERED: dict[str, int] = {}  # known-finding slug -> number of generated items steered away from it (per process)
+
+GENERIC_ID = -1  # typing.Generic in the MRO bookkeeping
+PROTOCOL_ID = -2  # typing.Protocol (a subclass of Generic)
 
 DEFAULT_FEATS = {"none_attr": True, "mangled": True, "doc_shapes": True, "star": True, "redef": True}
 
@@ -103,7 +111,13 @@ class _Builder:
     def __init__(self, draw, feats):
         self.draw = draw
         self.feats = feats
-        self.classes: dict[int, dict] = {}  # cid -> {"mro": [...], "nested": {name: cid}}
+        # cid -> {"mro": [...], "nested": {name: cid}, "params": has a free type variable, "proto": is a Protocol class,
+        #         "orig": the class or an ancestor was created from a subscripted base (has/inherits __orig_bases__)}
+        self.classes: dict[int, dict] = {
+            GENERIC_ID: {"mro": [GENERIC_ID], "nested": {}, "params": False, "proto": False, "orig": False},
+            PROTOCOL_ID: {"mro": [PROTOCOL_ID, GENERIC_ID], "nested": {}, "params": False, "proto": True, "orig": False},
+        }
+        self.next_cid = 0
         self.modenvs: list[dict] = []  # per module: final name -> ref
         self.mods: list[dict] = []
 
@@ -147,8 +161,8 @@ class _Builder:
     def params(self, first: str | None) -> list[dict]:
         d = self.draw
         names = list(d(st.permutations(PARAM_NAMES)))
-        n_po = d(st.integers(0, 2)) if self.chance(35) else 0
-        n_pk = d(st.integers(0, 2))
+        n_po = d(st.integers(0, 2)) if self.chance(45) else 0
+        n_pk = d(st.integers(0, 4))
         va = self.chance(30)
         n_ko = d(st.integers(0, 2)) if self.chance(45) else 0
         vk = self.chance(30)
@@ -214,24 +228,48 @@ class _Builder:
                             self._nested_exprs([TOP, *self.mods[j]["path"], n2], r2["id"], out)
         return out
 
-    def klass(self, name: str, genv: dict, depth: int, allow_none: bool) -> tuple[dict, int]:
+    def klass(self, name: str, genv: dict, depth: int, allow_none: bool, typing: bool = False) -> tuple[dict, int]:
         d = self.draw
         cands = self.base_candidates(genv)
         bases: list[list[str]] = []
         base_ids: list[int] = []
-        if cands and self.chance(60):
-            for _ in range(2 if self.chance(50) else 1):
-                expr, cid = self.pick(cands)
-                if cid in base_ids:
+        params = False
+        orig = False
+        proto = False
+
+        def consistent(trial: list[int]) -> bool:
+            return c3_merge([self.classes[b]["mro"] for b in trial] + [trial]) is not None
+
+        if typing and self.chance(12):
+            # a Protocol class: typing.Protocol is its only base
+            sub = self.chance(50)
+            bases.append(["Protocol", "[T]"] if sub else ["Protocol"])
+            base_ids.append(PROTOCOL_ID)
+            params, orig, proto = sub, sub, True
+        elif cands and self.chance(65):
+            # prefer classes with a generic ancestry when there are some (descendants of generic classes are the point)
+            lineage = [c for c in cands if self.classes[c[1]]["orig"] or self.classes[c[1]]["params"]]
+            for _ in range(2 if self.chance(65 if lineage else 50) else 1):
+                expr, cid = self.pick(lineage if lineage and self.chance(70) else cands)
+                if cid in base_ids or not consistent(base_ids + [cid]):
                     continue
-                trial = base_ids + [cid]
-                if c3_merge([self.classes[b]["mro"] for b in trial] + [trial]) is None:
-                    continue
+                if self.classes[cid]["params"] and self.chance(55):
+                    sub = self.pick(["[T]", "[int]", "[str]"] if typing else ["[int]", "[str]"])
+                    expr = [*expr, sub]
+                    params |= sub == "[T]"
+                    orig = True
+                orig |= self.classes[cid]["orig"]
                 bases.append(expr)
                 base_ids.append(cid)
-        cid = len(self.classes)
+        if typing and not proto and self.chance(25 if not bases else 12) and consistent(base_ids + [GENERIC_ID]):
+            # a generic root (alone), or `class A(Repo[T], Generic[T])` / `class A(Plain, Generic[T])`
+            bases.append(["Generic", "[T]"])
+            base_ids.append(GENERIC_ID)
+            params, orig = True, True
+        cid = self.next_cid
+        self.next_cid += 1
         mro = [cid] + (c3_merge([self.classes[b]["mro"] for b in base_ids] + [list(base_ids)]) or [])
-        self.classes[cid] = {"mro": mro, "nested": {}}
+        self.classes[cid] = {"mro": mro, "nested": {}, "params": params, "proto": proto, "orig": orig}
         body: list[dict] = []
         used: set[str] = set()
         has_init = False
@@ -265,7 +303,7 @@ class _Builder:
                 n = self.fresh(CLS_NESTED, used)
                 if n is None:
                     continue
-                item, ncid = self.klass(n, genv, depth + 1, allow_none)
+                item, ncid = self.klass(n, genv, depth + 1, allow_none, typing)
                 body.append(item)
                 self.classes[cid]["nested"][n] = ncid
                 used.add(n)
@@ -286,7 +324,9 @@ class _Builder:
                     body.append({"t": "attr", "name": n, "value": self.value(allow_none)})
                 else:
                     body.append(self.func(n, None, "self"))
-        return {"t": "class", "name": name, "doc": self.doc(), "bases": bases, "body": body}, cid
+        # "orig" is informational (evidence histogram): does the class have a subscripted base of its own, or only inherit one
+        own = any(b[-1].startswith("[") for b in bases)
+        return {"t": "class", "name": name, "doc": self.doc(), "bases": bases, "body": body, "orig": "own" if own else "inherited" if orig else None}, cid
 
     # -- imports of module i
     def imports(self, i: int, env: dict, is_top_init: bool, layout_pkg: bool) -> list[dict]:
@@ -376,6 +416,11 @@ class _Builder:
         is_top_init = meta["init"] and not meta["path"]
         allow_none = self.feats["none_attr"]
         env: dict = {}
+        typing = self.chance(40)
+        meta["typing"] = typing
+        if typing:
+            # names bound by the typing header (reserved before the imports are drawn: nothing rebinds them)
+            env.update({"Generic": {"k": "extclass"}, "Protocol": {"k": "extclass"}, "TypeVar": {"k": "extclass"}, "T": {"k": "typevar"}})
         body = self.imports(i, env, is_top_init, layout_pkg)
         uses_functools = False
         uses_cached = False
@@ -388,11 +433,11 @@ class _Builder:
                 f = self.func(n, None, None)
                 body.append(f)
                 env[n] = {"k": "func"}
-            elif what <= 6:
+            elif what <= (7 if typing else 6):
                 n = self.fresh(MOD_CLASSES, env)
                 if n is None:
                     continue
-                item, cid = self.klass(n, env, 0, allow_none)
+                item, cid = self.klass(n, env, 0, allow_none, typing)
                 body.append(item)
                 env[n] = {"k": "class", "id": cid}
             elif what <= 8:
@@ -463,22 +508,17 @@ class _Builder:
             self.top_idx = next(i for i, m in enumerate(self.mods) if m["init"] and not m["path"])
         for i in range(len(self.mods)):
             self.module(i, layout == "package")
-        mods = [{"path": m["path"], "init": m["init"], "doc": m["doc"], "body": m["body"]} for m in self.mods]
+        mods = [{"path": m["path"], "init": m["init"], "doc": m["doc"], "body": m["body"], "typing": m["typing"]} for m in self.mods]
         return {"kind": "pkg", "layout": layout, "mods": mods}
 
 
-EMPTY_CASE = {"kind": "pkg", "layout": "module", "mods": [{"path": [], "init": False, "doc": None, "body": []}]}
-
-
-def cases(feats: dict | None = None, stop=None):
-    """Strategy of cases. `stop()` true (wall-clock budget exhausted) makes it return EMPTY_CASE without drawing."""
+def cases(feats: dict | None = None):
+    """Strategy of cases."""
     f = dict(DEFAULT_FEATS)
     f.update(feats or {})
 
     @st.composite
     def _cases(draw):
-        if stop is not None and stop():
-            return EMPTY_CASE
         return _Builder(draw, f).build()
 
     return _cases()
@@ -513,6 +553,13 @@ def _render_params(params: list[dict]) -> str:
     return ", ".join(parts)
 
 
+def _render_base(parts: list[str], top: str) -> str:
+    sub = ""
+    if parts[-1].startswith("["):
+        parts, sub = parts[:-1], parts[-1]
+    return ".".join(top if p == TOP else p for p in parts) + sub
+
+
 def _render_items(items: list[dict], ind: str, top: str, mods: list[dict], me: dict, out: list[str]) -> None:
     for it in items:
         t = it["t"]
@@ -542,7 +589,7 @@ def _render_items(items: list[dict], ind: str, top: str, mods: list[dict], me: d
                 out.append(f"{ind}def {it['name']}(self, value):")
                 out.append(f"{ind}    pass")
         elif t == "class":
-            bases = ", ".join(".".join(top if p == TOP else p for p in b) for b in it["bases"])
+            bases = ", ".join(_render_base(b, top) for b in it["bases"])
             out.append(f"{ind}class {it['name']}({bases}):" if bases else f"{ind}class {it['name']}:")
             if it["doc"] is not None:
                 out.append(f"{ind}    {it['doc']!r}")
@@ -593,6 +640,9 @@ def render(case: dict, top: str) -> dict[str, str]:
         out: list[str] = []
         if m["doc"] is not None:
             out.append(repr(m["doc"]))
+        if m.get("typing"):
+            out.append("from typing import Generic, Protocol, TypeVar")
+            out.append('T = TypeVar("T")')
         if _uses(m["body"], "fcached_property"):
             out.append("import functools")
         if _uses(m["body"], "cached_property"):
@@ -631,6 +681,8 @@ def source_facts(case: dict, top: str) -> dict[str, dict]:
 
     for m in case["mods"]:
         scope(dotted(top, m["path"]), m["body"], False)
+        if m.get("typing"):
+            facts[dotted(top, m["path"])]["defined"] |= {"T", "Generic", "Protocol", "TypeVar"}
     return facts
 
 
@@ -691,6 +743,12 @@ def describe(case: dict):
                     cls.add("mangled-name")
                 if is_dunder(it["name"]):
                     cls.add("dunder:source-defined")
+                pks = [p for p in it["params"] if p["k"] == "pk"]
+                nd = sum(1 for p in pks if p["d"] is not None)
+                if any(p["k"] == "po" for p in it["params"]) and 0 < nd < len(pks):
+                    cls.add("sig:posonly+partial-default-run")
+                    if 2 * nd > len(pks):
+                        cls.add("sig:posonly+partial-default-run>half")
                 for p in it["params"]:
                     cls.add(f"param:{p['k']}" + ("=default" if p["d"] is not None else ""))
                     if p["a"]:
@@ -703,10 +761,23 @@ def describe(case: dict):
                 cls.add("class:nested" if in_class else "class:module")
                 if it["doc"] is not None:
                     cls.add("doc:class")
+                if it.get("orig") == "inherited":
+                    cls.add("generic:unsubscripted-descendant")
+                    if len(it["bases"]) > 1:
+                        cls.add("generic:unsubscripted-descendant-multi-base")
                 if it["bases"]:
                     cls.add(f"bases:{len(it['bases'])}")
                     for b in it["bases"]:
-                        cls.add("base:dotted" if len(b) > 1 else "base:name")
+                        sub = b[-1] if b[-1].startswith("[") else None
+                        plain = b[:-1] if sub else b
+                        if plain == ["Generic"]:
+                            cls.add("generic:Generic[T]-base")
+                        elif plain == ["Protocol"]:
+                            cls.add("generic:Protocol[T]-base" if sub else "generic:Protocol-base")
+                        else:
+                            cls.add("base:dotted" if len(plain) > 1 else "base:name")
+                            if sub:
+                                cls.add("generic:subscripted-base" + ("[T]" if sub == "[T]" else "[type]"))
                 walk(it["body"], depth + 1, True)
             if t in ("func", "class") and it.get("doc"):
                 d = it["doc"]
@@ -722,6 +793,8 @@ def describe(case: dict):
             max_flavours = max(max_flavours, len(flav))
 
     for m in mods:
+        if m.get("typing"):
+            cls.add("typing-header")
         if m["doc"] is not None:
             cls.add("doc:module")
         walk(m["body"], 0, False)
